@@ -39,8 +39,13 @@ CLAIMED = {
             "bounded model checking (@for scope): the visited sequence for all from,to in [-6,6] and the iteration count at the i64 limits"),
     "C26": ("E2", "symbolic execution of the closures' MIR, obligations decided by z3 and cvc5",
             "bounded model checking (index scope): slice/insert index arithmetic for ALL i64 indices and every length up to 2^32"),
-    "C28": ("E2", "symbolic execution of list::index_of and the set-nth closure's MIR, decided by z3 and cvc5",
-            "bounded model checking (index scope): nth/set-nth index arithmetic for ALL i64 n and every length up to 2^32"),
+    "C28": ("E2", "symbolic execution of list::index_of and the set-nth / index / append / join / separator closures' MIR, decided by z3 and cvc5",
+            "bounded model checking (index and selection scope): nth/set-nth index arithmetic for ALL i64 n and every length up to 2^32; list.index "
+            "returns the first `==` position for lists and maps (as pair lists) of up to 3 entries; separator/bracket selection of append/join"),
+    "C29": ("E1+E2", "Kani/CBMC on Number::ceil/floor/trunc/round/abs/signum; MIR symbolic execution (z3+cvc5) of the math closures, Numeric::percentage and find_extreme",
+            "bounded model checking (rounding and selection scope): ceil/floor/trunc/round against their order-theoretic definitions for ALL finite doubles; "
+            "math.ceil/floor/round/abs/percentage apply exactly that operation and keep the unit; clamp and max/min return the argument their "
+            "comparisons select; transcendental functions, math.div and hypot are outside"),
     "C31": ("E1+E2", "Kani/CBMC on constructors and conversions; cvc5 with exact fp.rem on deg_mod's MIR",
             "bounded model checking: channel ranges for all f64 constructor arguments, rgb->hsl/hwb formulas for all 2^24 byte colours, "
             "round trips on a colour lattice, hue in [0,360) for every finite double"),
@@ -70,7 +75,6 @@ NOT_APPLICABLE = {
     "C24": "selector algebra over the same trees; append re-enters the parser",
     "C25": "selector parser (nom) and printer (core::fmt)",
     "C27": "CssString::unquote/Display and the parser's escape handling rebuild Strings char by char (CBMC: OOM at 18 GB on 3-byte strings)",
-    "C29": "exp/log/pow/sin have no solver theory; the unit plumbing lives in closures over css::Value",
     "C30": "decided by the calc grammar in the nom parser",
     "C33": "Formatted<Rgba>/<Hsla> Display impls: core::fmt (see C10)",
     "C34": "equality of two dispatch tables built at LazyLock init (BTreeMap, parser for defaults)",
